@@ -359,7 +359,16 @@ def run(tape, kind):
         supplied_sets = set()
         stop = False
         for step in range(tape.int('n_batches', 1, 5)):
-            how = tape.choice('batch_via', ['compute', 'submit', 'submit_override', 'submit_pair'])
+            how = tape.choice('batch_via', ['compute', 'submit', 'submit_override', 'submit_pair',
+                                            'reset'])
+            if how == 'reset':
+                # the handler is rewound (what set_objective / a new round does): the indices
+                # submitted next are indices the pool may already hold - a supplied value
+                # (override) must still win over what the pool has for that node
+                handler.reset()
+                out.probes['handler_reset'] += 1
+                abstract.append((how, 0, 0))
+                continue
             if how == 'submit_pair':
                 # two batches are loaded and submitted before the first one is fetched (what
                 # speculative submission does); each is judged with its own metadata
